@@ -228,6 +228,11 @@ example : safeSegs .normal (segsSel (LogQL.planLog exCtx exQuery)) = true :=
   closed_fragments_planLog_partial _ _ exAtoms exQueryOK
 example : safeSegs .normal (segsSel (LogQL.planLog exCtxCluster exQuery)) = true :=
   closed_fragments_planLog_partial _ _ exAtomsCluster exQueryOK
+-- the string leaves of the nodes added for the TraceQL and the LogQL metric planners (`anyIfNum`, `mapAt`,
+-- `mapFilterKeys`) with hostile keys
+example : safeSegs .normal (segsExpr (.callT "bitAnd" [.anyIfNum [39, 92], .mapAt (.raw "labels") [39, 45, 45],
+    .mapFilterKeys false [[39], [92, 39], []] (.raw "labels"), .divOp (.raw "x") (.fixedLit 5 0)])) = true :=
+  closed_fragments_expr_partial _ (by simp only [wfExpr, wfExprs, Bool.and_eq_true, Bool.and_true]; decide +kernel) _ rfl
 -- a raw atom that is not well formed is refused: a comment opener as a column name, a quote in a label name
 example : wfExpr (.raw "a --") = false := by simp only [wfExpr]; decide +kernel
 example : wfExpr (.lit "a'b") = false := by simp only [wfExpr]; decide +kernel
